@@ -173,3 +173,21 @@ func qpeerFrames(ps []qpeerPacket) string {
 	}
 	return b.String()
 }
+
+// qpeerDeadlineYield wraps an Enumerate yield so that every shard notices the
+// internal deadline (the serial Enumerate loop only polls it on case indices
+// that are multiples of 64, which most shards never own).
+func qpeerDeadlineYield[T any](c *vx.Ctx, yield func(T) bool) func(T) bool {
+	var i, own int64
+	return func(x T) bool {
+		mine := c.Mine(i)
+		i++
+		if mine {
+			own++
+			if own&15 == 0 && c.Expired() {
+				return false
+			}
+		}
+		return yield(x)
+	}
+}
